@@ -472,7 +472,8 @@ fn register_body(n: usize) {
     let idw: u64 = kani::any();
     let w = idw.to_le_bytes();
     let nb: [u8; 5] = [w[0], w[1], w[2], w[3], w[4]];
-    let nl = ID_LEN[n];
+    // same length as the first registered ID, so that a duplicate is possible
+    let nl = ID_LEN[0];
     let new_id = connection::LocalId::try_from_bytes(&nb[..nl]).unwrap();
     let tokw: u128 = kani::any();
     let has_exp: bool = kani::any();
